@@ -20,8 +20,11 @@ Faulted(u, ans) ==
           ELSE <<"err", 255>>)
     ELSE ans
 
-\* dt: the device type enabled for this frame (0 = none)
-Step(u, f, dt) ==
+\* dt: the device type enabled for this frame (0 = none).
+\* A configuration command (STORE COLOUR TEMPERATURE Tc LIMIT here) takes effect only when it is received twice in a row
+\* (IEC 62386-102 9.3: the identical frame again, nothing in between): u.pend is the configuration frame that is waiting
+\* for its repeat (-1 = none).  Senders know which commands these are from the command's send-twice flag.
+StepNow(u, f, dt) ==
     LET nm == Name16(f, dt)
         lb == f % 256
         Q(v) == [u |-> [u EXCEPT !.nans = @ + 1], resp |-> Faulted(u, <<"val", v>>)]
@@ -43,6 +46,12 @@ Step(u, f, dt) ==
       [] nm = "102.QueryContentDTR0" /\ Addressed(f) -> Q(u.dtr0)
       [] nm = "102.QueryActualLevel" /\ Addressed(f) -> Q(u.level)
       [] OTHER -> [u |-> u, resp |-> Silent]
+
+Step(u, f, dt) ==
+    IF Name16(f, dt) = "209.StoreColourTemperatureTcLimit" /\ Addressed(f)
+    THEN (IF u.pend = f THEN LET r == StepNow(u, f, dt) IN [u |-> [r.u EXCEPT !.pend = -1], resp |-> r.resp]
+          ELSE [u |-> [u EXCEPT !.pend = f], resp |-> Silent])
+    ELSE LET r == StepNow(u, f, dt) IN [u |-> [r.u EXCEPT !.pend = -1], resp |-> r.resp]
 
 \* the selectors of QUERY COLOUR VALUE (209 Table 11)
 QuerySelectors == (0..15) \cup (64..82) \cup (128..131) \cup (192..208) \cup (224..240)
